@@ -16,6 +16,18 @@ CLAIMED = {
              "comparison, whose loop is covered for 0..=3 iterations with unwinding assertions).",
         technique="Kani/CBMC symbolic execution of each scraped impl vs. slice oracle (SAT)",
         design="5 C14"),
+    "C10": dict(
+        text="Bounded model checking: for every get_X/try_get_X pair scraped from `pub trait Buf` (38 pairs) Kani decides, for all byte "
+             "values, that the result equals an independent shift-and-or decoding of the next bytes (two's-complement sign extension "
+             "written out; nbytes symbolic in 0..=8), that the cursor advances by exactly the width, that try_get == Ok(get), and on a "
+             "short buffer (symbolic shortfall) that try_get returns Err{requested, available} with the cursor untouched and get never "
+             "returns. Chunking: every chunking of the value for widths <= 4 (symbolic chunk length at every position), one symbolic cut "
+             "plus 1-byte and 3-byte chunks for 8/16-byte values (all chunkings in the thorough tier); implementors &[u8], Bytes, BytesMut, "
+             "Cursor, Chain, Take and the &mut / Box forwarding impls.",
+        note=COMMON_NOTE + "Native endian is checked on the little-endian target only. For 16-byte values the quick tier does not cover "
+             "chunkings with two or more boundaries other than all-1-byte and all-3-byte chunks (thorough does). slice_index_fail is stubbed by a plain panic.",
+        technique="Kani/CBMC symbolic execution of each getter vs. independent reference decoder (SAT)",
+        design="5 C10"),
 }
 
 NOT_YET = "check not built yet in this session (work in progress; see DESIGN.md section 5 for the planned solver encoding)"
